@@ -22,7 +22,7 @@ LEVEL_NOTE = ("ASSUMED: scipy.ndimage.label / center_of_mass / sum on binary ima
               "A-SUM (finite sums over disjoint cell sets); A-PDE: transform(cell->grid) affine, normalize_point wraps by whole periods; contract of "
               "SphericalDroplet.from_volume (C12) and Emulsion.remove_overlapping (C10); induction over loop iterations from the invariants; "
               "A-FP; cylindrical grids: bounded only, with two KNOWN FINDINGS (spanning fallback, Euclidean overlap metric on periodic z)")
-CONTRACTS = [lm.LocateCartesian().ident, em.RemoveOverlapping().ident, em.Overlaps().ident]
+CONTRACTS = [lm.LocateCartesian().ident, lm.LocateCylSingle().ident, em.RemoveOverlapping().ident, em.Overlaps().ident]
 LEMMAS = ["strictly-largest-droplet-survives"]
 CLAUSES = {"droplets <-> connected components (faces + periodic boundaries), one-to-one": "merge invariants proved; equality with the periodic components "
            "for non-winding shapes: bounded (exhaustive <= 4x4, 3x2x2; 6000 random)",
